@@ -94,6 +94,9 @@ impl MPattern {
         if self.mask == MASK_REPORTING_MATCHER {
             return x == 0;
         }
+        if self.mask == MASK_REPORTING_ACCEPTING_MATCHER {
+            return x <= 1;
+        }
         self.mask < 8 && x < 3 && (self.mask >> x) & 1 == 1
     }
 
